@@ -11,7 +11,7 @@
    process; state kept between calls) is validated at run time by the entries of DC16.v, whose checker is proved sound below. *)
 From Coq Require Import ZArith String List Bool Permutation.
 From SID Require Import Base Str Ids Wire ZoomCore ChangeZoom Merge MergeProof MergeApi Neighbour Notation SetOps Overlap QuadkeyConv Line Corridor
-  Determinism DeterminismMore DC16.
+  Tile Determinism DeterminismMore DeterminismTile DC16.
 Import ListNotations.
 Open Scope Z_scope.
 
@@ -181,6 +181,54 @@ Theorem C16_key_conversion_of_ids :
 Proof. exact @conv_pairs_deterministic. Qed.
 Print Assumptions C16_key_conversion_of_ids.
 
+(* the three exported forms, both-fail-or-both-succeed (groups_agree: Ok/Ok with the flattened pairs permutations of one duplicate-free
+   list, or Err/Err): index form and refused height range (e2q), altitude keys (e2qa), spatial-ID notation first (s2q) *)
+Theorem C16_E2Q_perm_invariant :
+  forall (P : Type) (par : P) idx ids ids' oh ov, same_members ids ids' -> groups_agree (e2q par idx ids oh ov) (e2q par idx ids' oh ov).
+Proof. exact @e2q_perm_invariant. Qed.
+Print Assumptions C16_E2Q_perm_invariant.
+Theorem C16_E2QA_perm_invariant :
+  forall ids ids' oq oa E zo, same_members ids ids' -> groups_agree (e2qa ids oq oa E zo) (e2qa ids' oq oa E zo).
+Proof. exact e2qa_perm_invariant. Qed.
+Print Assumptions C16_E2QA_perm_invariant.
+Theorem C16_S2Q_perm_invariant :
+  forall (P : Type) (par : P) idx sids sids' oh ov, same_members sids sids' -> groups_agree (s2q par idx sids oh ov) (s2q par idx sids' oh ov).
+Proof. exact @s2q_perm_invariant. Qed.
+Print Assumptions C16_S2Q_perm_invariant.
+
+(* ---- 8b. tile conversions, on the model of Tile.v (C13's lemmas restated): requests with the same members ---- *)
+Theorem C16_tiles_eids_perm_invariant :
+  forall (ord ord' : list eid -> list eid) l1 l2 E zo outV,
+  (forall x, Permutation (ord x) x) -> (forall x, Permutation (ord' x) x) -> same_members l1 l2 ->
+  match tiles_to_eids l1 E zo outV, tiles_to_eids l2 E zo outV with
+  | Ok r1, Ok r2 => Permutation (ord r1) (ord' r2)
+  | Err, Err => True
+  | _, _ => False
+  end.
+Proof. exact tiles_eids_perm_invariant. Qed.
+Print Assumptions C16_tiles_eids_perm_invariant.
+Theorem C16_tiles_eids_nodup :
+  forall (ord : list eid -> list eid) l E zo outV r, (forall x, Permutation (ord x) x) -> tiles_to_eids l E zo outV = Ok r -> NoDup (ord r).
+Proof. exact tiles_eids_nodup. Qed.
+Print Assumptions C16_tiles_eids_nodup.
+Theorem C16_tiles_sids_perm_invariant :
+  forall l1 l2 E zo outV, same_members l1 l2 ->
+  match tiles_to_sids l1 E zo outV, tiles_to_sids l2 E zo outV with
+  | Ok s1, Ok s2 => Permutation s1 s2
+  | Err, Err => True
+  | _, _ => False
+  end.
+Proof. exact tiles_sids_perm_invariant. Qed.
+Print Assumptions C16_tiles_sids_perm_invariant.
+
+(* ---- 8c. the exported per-axis helpers HorizontalZoom / VerticalZoom: functions of their arguments in the model; no index twice ---- *)
+Theorem C16_HorizontalZoom_nodup : forall zin x y zout, NoDup (ZoomCore.hzoom zin x y zout).
+Proof. exact hzoom_nodup. Qed.
+Print Assumptions C16_HorizontalZoom_nodup.
+Theorem C16_VerticalZoom_nodup : forall zin f zout, NoDup (ZoomCore.vzoom zin f zout).
+Proof. exact vzoom_nodup. Qed.
+Print Assumptions C16_VerticalZoom_nodup.
+
 (* ---- 9. corridor, on the model of Corridor.v (after the fixes 70c64b2 and 915e48e).  The model threads the search state of the one
    closest.Measure through the candidates in sorted order (`St`, `measure : St -> id -> result (bool * St)`), so nothing is assumed about
    the purity of a measurement.  Any three map orders, any arrival order of the line's IDs: both runs fail, or both succeed with
@@ -257,6 +305,22 @@ Example C16_nonvacuous_merge :
   merge (@rev eid) 0 0 ([mk 2 2 2 2 2; mk 2 2 3 2 2; mk 2 3 2 2 2; mk 2 3 3 2 2; mk 2 2 2 2 3; mk 2 2 3 2 3; mk 2 3 2 2 3; mk 2 3 3 2 3] ++
                         [mk 1 0 0 1 0; mk 1 0 1 1 0; mk 1 1 0 1 0; mk 1 1 1 1 0; mk 1 0 0 1 1; mk 1 0 1 1 1; mk 1 1 0 1 1]) = [mk 0 0 0 0 0].
 Proof. split; vm_compute; reflexivity. Qed.
+(* the seeded one-entry cache of HorizontalZoom keyed on (x, y, zoom difference): the model's answers differ at another input zoom *)
+Example C16_nonvacuous_hzoom : hzoom_strs 5 3 3 7 <> hzoom_strs 6 3 3 8 /\ (7 - 5 = 8 - 6).
+Proof. exact hzoom_depends_on_the_input_zoom. Qed.
+(* tiles: a repeated and reordered request gives the same IDs *)
+Example C16_nonvacuous_tiles :
+  tiles_to_eids [mkt 3 1 2 25 0; mkt 3 1 2 25 1; mkt 3 1 2 25 0] 25 0 25 = Ok [mk 3 1 2 25 1; mk 3 1 2 25 0] /\
+  tiles_to_eids [mkt 3 1 2 25 1; mkt 3 1 2 25 0] 25 0 25 = Ok [mk 3 1 2 25 1; mk 3 1 2 25 0].
+Proof. exact tiles_order_example. Qed.
+(* key conversion of two IDs in both orders: other groups, the same pairs *)
+Example C16_nonvacuous_e2q :
+  groups_agree (e2q tt true ["2/1/1/2/0"; "1/0/0/2/0"] 2 2) (e2q tt true ["1/0/0/2/0"; "2/1/1/2/0"] 2 2) /\
+  e2q tt true ["2/1/1/2/0"; "1/0/0/2/0"] 2 2 <> e2q tt true ["1/0/0/2/0"; "2/1/1/2/0"] 2 2 /\
+  e2q tt true ["2/1/1/2/0"; "1/0/0/2/0"] 2 2 <> Err.
+Proof.
+  split; [apply e2q_perm_invariant; intros a; cbn [In]; tauto|]. split; vm_compute; discriminate.
+Qed.
 (* the checker accepts consistent runs and rejects each kind of violation *)
 Example C16_checker_examples :
   check_runs true true true [ROk ["a"; "b"] ["a"; "b"]; ROk ["b"; "a"] ["b"; "a"]] [ROk ["b"; "a"] ["b"; "a"]] [ROk ["a"; "b"] ["a"; "b"]] = true /\
